@@ -218,6 +218,8 @@ def programs(tier, seed):
         progs.append(pygen.gen_program(rng, rng.randint(3, 11), depth=rng.choice([2, 3, 3, 4])))
     for _ in range(n // 2):
         progs.append(pygen.gen_concrete(rng, rng.randint(3, 9), depth=rng.choice([2, 3])))
+    sysp = pygen.systematic()
+    progs += sysp if tier != "quick" else rng.sample(sysp, min(len(sysp), 220))
     return progs
 
 
